@@ -1237,13 +1237,14 @@ def _variants(
                         reduced=(jt == "right"),
                     )
             if KJ == "k":
-                for jt in ("left", "full"):
+                for jt in ("left", "full", "inner", "right"):
                     emit(
                         "j_%s_c" % jt,
                         "natural_join",
                         ["natural_join", {"b": {"table": "c"}, "on": ["k"], "jointype": jt}],
                         join_schema("c", [("k", "k")]),
                         rows_cols=["k"],
+                        **({"reduced": True} if jt in ("inner", "right") else {}),
                     )
         if "k2" not in st.schema and "z" not in st.schema:
             emit(
